@@ -22,6 +22,11 @@ type Seed struct {
 	Find    string   `json:"find"`
 	Replace string   `json:"replace"`
 	Append  string   `json:"append,omitempty"` // text added at the end of the file (new helper functions)
+	// More edits of the same file, applied in order after Find/Replace (refactorings with several hunks).
+	Edits []struct {
+		Find    string `json:"find"`
+		Replace string `json:"replace"`
+	} `json:"edits,omitempty"`
 	Expect  string   `json:"expect"`           // substring of the failing obligation key
 	Note    string   `json:"note,omitempty"`
 	// Benign seeds are behaviour-preserving edits: the rules must stay silent.
@@ -120,7 +125,21 @@ func runSeeds(seeds []Seed, repo string, onlyRules map[string]bool) []SeedResult
 			results[i].Detail = fmt.Sprintf("anchor text occurs %d times (seed no longer applies)", n)
 			continue
 		}
-		mut := strings.Replace(string(src), sd.Find, sd.Replace, 1) + sd.Append
+		mut := strings.Replace(string(src), sd.Find, sd.Replace, 1)
+		stale := false
+		for _, ed := range sd.Edits {
+			if strings.Count(mut, ed.Find) != 1 {
+				stale = true
+				break
+			}
+			mut = strings.Replace(mut, ed.Find, ed.Replace, 1)
+		}
+		if stale {
+			results[i].Status = "skipped"
+			results[i].Detail = "anchor text of a further edit does not occur exactly once (seed no longer applies)"
+			continue
+		}
+		mut += sd.Append
 		mf := filepath.Join(tmp, fmt.Sprintf("seed%d.go", i))
 		os.WriteFile(mf, []byte(mut), 0o644)
 		out := filepath.Join(tmp, fmt.Sprintf("seed%d.json", i))
